@@ -3,11 +3,12 @@ CONSTANTS
   Nodes = {"a", "b", "c"}
   Endorsors = {"e1", "e2"}
   Endorsement = 1
+  Cap = 2
   None = "none"
   MaxBlocks = 4
   MaxTx = 1
   Genesis <- Gen2
-  MBPs = {1, 2, 3}
+  MBPs = {0, 1, 3}
   Bals = {0, 1}
 INVARIANT ListIsInsertionOrder
 INVARIANT HeadTailConsistent
